@@ -226,7 +226,11 @@ def split_delay_tags(series, hed_schema, onsets):
         duration_tags = delay_string.find_top_level_tags({DefTagNames.DELAY_KEY})
         to_remove = []
         for tag, group in duration_tags:
-            onset_mod = tag.value_as_default_unit() + float(onsets[i])
+            try:
+                onset_mod = tag.value_as_default_unit() + float(onsets[i])
+            except (TypeError, ValueError):
+                # No usable delay (invalid value or unit) or no numeric onset: the group stays in its row.
+                continue
             to_remove.append(group)
             insert_index = split_df['original_index'].index.max() + 1
             split_df.loc[insert_index] = {'HED': str(group), 'onset': onset_mod, 'original_index': i}
